@@ -327,6 +327,15 @@ var shapes = []string{
 	"fmt.Println(p.Ratio(1, 2))", "fmt.Println(p.Wrap(200, 100))", "x := p.Sum(1, 2, 3)", "fmt.Println(p.Cat(\"a\", \"b\", \"c\"))", "fmt.Println(p.N.Ratio(3, 2))",
 	"q := p.N ;; fmt.Println(q.Wrap(250, 10), q.Ratio(1, 4))", "fmt.Println(ratio(1, 2), wrap(200, 100))", "fr := p.Ratio ;; fmt.Println(fr(1, 2))", "fs := []float64{1, 2} ;; fmt.Println(p.Ratio(fs...))",
 	"fmt.Println(p.Ratio(), p.Sum(), len(p.Cat(\"z\")))", "x := p.Sum(a, b) + p.Sum(1)", "fmt.Println(gp.Ratio(1, 2), gp.Wrap(200, 100))",
+	// int32 locals at the limits of their range, changed in place
+	"hi := 2147483647 ;; hi++ ;; fmt.Println(hi, hi < 0)", "lo := -2147483648 ;; lo-- ;; fmt.Println(lo, lo > 0)", "hi := 2147483640 ;; for k := 0; k < 6; k++ { hi += 3 } ;; fmt.Println(hi)",
+	"hi := 2147483647 ;; hi = hi + 1 ;; x = hi / 2", "hi := 2147483647 ;; hi += a ;; fmt.Println(hi, hi - 1)", "var r rune = 2147483647 ;; r++ ;; fmt.Println(r)", "lo := -2147483647 ;; lo -= 2 ;; fmt.Println(lo)",
+	"hf := 2147483647.0 ;; hf++ ;; fmt.Println(hf)", "var w uint32 = 4294967295 ;; w++ ;; fmt.Println(w)", "var w uint32 = 0 ;; w-- ;; fmt.Println(w)",
+	// a package-level function variable called from one call site that runs several times and is reassigned in between
+	"gfn = id ;; for k := 0; k < 3; k++ { x += gfn(k + 1) ;; gfn = dbl } ;; fmt.Println(x)", "gfn = dbl ;; x = gfn(2) ;; gfn = id ;; x += gfn(2)",
+	"for k := 0; k < 4; k++ { if k % 2 == 0 { gfn = id } else { gfn = dbl } ;; x += gfn(10) }", "gfn = id ;; apply := func(v int) int { return gfn(v) } ;; x = apply(3) ;; gfn = dbl ;; x += apply(3)",
+	// the same field of two different struct variables on both sides
+	"q := p.N ;; p.V = q.V + 1 ;; fmt.Println(p.V, q.V)", "q := p.N ;; q.V = p.V - 1 ;; fmt.Println(p.V, q.V)", "q := &P{V: 40} ;; for k := 0; k < 2; k++ { p.V = q.V + 2 } ;; fmt.Println(p.V, q.V)",
 	"x := a > 1 && b > 1", "x := a > 1 || b/(a-a) > 1", "x := nm[\"k\"]", "x := len(ns)", "x := -a", "x := ^a", "x := a &^ 1", "x := a << 2 - 1",
 }
 
@@ -334,7 +343,7 @@ func shapeSrc(shape string, position int) string {
 	hdr := "import \"fmt\"\ntype P struct { V int; N *P }\nfunc (p *P) Get() int { return p.V }\nfunc (p *P) Add(a int) int { return p.V + a }\nfunc (p *P) Set(a int) { p.V = a }\n" +
 		"func id(a int) int { return a }\nfunc add(a int, b int) int { return a + b }\nfunc noop() { }\nvar ga, gb int = 7, 3\n" +
 		"func (p *P) Ratio(xs ...float64) float64 { if len(xs) < 2 { return -1 }; return xs[0] / xs[1] }\nfunc (p *P) Wrap(xs ...byte) byte { return xs[0] + xs[1] }\nfunc (p *P) Sum(xs ...int) int { t := p.V; for _, x := range xs { t += x }; return t }\n" +
-		"func (p *P) Cat(pre string, xs ...string) string { for _, x := range xs { pre += x }; return pre }\nfunc ratio(xs ...float64) float64 { return xs[0] / xs[1] }\nfunc wrap(xs ...byte) byte { return xs[0] + xs[1] }\nvar gp = &P{V: 1}\n"
+		"func (p *P) Cat(pre string, xs ...string) string { for _, x := range xs { pre += x }; return pre }\nfunc dbl(a int) int { return a * 2 }\nvar gfn func(int) int\nfunc ratio(xs ...float64) float64 { return xs[0] / xs[1] }\nfunc wrap(xs ...byte) byte { return xs[0] + xs[1] }\nvar gp = &P{V: 1}\n"
 	locals := "a, b := 7, 3; f := 1.5; var u8 uint8 = 255; var i8 int8 = 100; var u32 uint32 = 0; s := \"s\"; sl := []int{1, 2, 3}; m := map[string]int{\"k\": 1}; mi := map[uint32]int{1: 1}; p := &P{V: 5, N: &P{V: 6}}; var nm map[string]int; var ns []int; x := 0; _ = x"
 	dump := "fmt.Println(a, b, f, u8, i8, u32, s, sl, len(m), m[\"k\"], m[\"z\"], len(mi), mi[3000000000], p.V, p.N.V, len(nm), len(ns))"
 	stmt := strings.ReplaceAll(shape, "x :=", "x =")
